@@ -130,7 +130,7 @@ func (ll *mapLL) update(higher moss.Snapshot) (moss.Snapshot, error) {
 		simrt.Note("fault:"+flt.Kind, uint64(idx))
 		if flt.Kind == "llu-stall" {
 			// stalled, then resumed: let everybody else run for a while
-			simrt.Quiesce(int64(500+flt.Frac), 0)
+			simrt.Stall(int64(500 + flt.Frac))
 		} else {
 			ll.lastFail = ents
 			ll.failed++
